@@ -191,6 +191,18 @@ def tw_expand(S, modes, N):
     return S2
 
 
+def tw_expand_vector(alpha, mode, N, hbar=2.0):
+    """documented: the 2N vector (xxpp) with sqrt(2 hbar) Re(alpha) at `mode` and sqrt(2 hbar) Im(alpha) at N + mode"""
+    m = _M()
+    s = m.sqrt(2 * hbar) if _is_proxy(hbar) else float(_np.sqrt(2 * hbar))
+    re = alpha.real if not isinstance(alpha, (int, float)) else alpha
+    im = alpha.imag if not isinstance(alpha, (int, float)) else 0.0
+    r = _oz((2 * N,))
+    r[mode] = s * re
+    r[N + mode] = s * im
+    return r
+
+
 def tw_xxpp_to_xpxp(S):
     S = _np.asarray(S)
     n = S.shape[0] // 2
@@ -218,7 +230,7 @@ def tw_sympmat(N, dtype=None):
 
 
 TW_SYMPLECTIC = {"interferometer": tw_interferometer, "rotation": tw_rotation, "squeezing": tw_squeezing,
-                 "two_mode_squeezing": tw_two_mode_squeezing, "beam_splitter": tw_beam_splitter, "expand": tw_expand,
+                 "two_mode_squeezing": tw_two_mode_squeezing, "beam_splitter": tw_beam_splitter, "expand": tw_expand, "expand_vector": tw_expand_vector,
                  "xxpp_to_xpxp": tw_xxpp_to_xpxp, "xpxp_to_xxpp": tw_xpxp_to_xxpp, "sympmat": tw_sympmat}
 
 
